@@ -12,7 +12,7 @@ From SVC Require Import Base.AMap Base.Res Base.Dec Model.Types Model.Pricing
   Model.Handlers Model.EndBlock Model.Step Proofs.Inv Proofs.Lemmas Proofs.ReqLemmas
   Proofs.DecProofs Proofs.PricingProofs Proofs.CtxOps Proofs.InvWf Proofs.BankLemmas Proofs.InvBank
   Proofs.PFrame Proofs.InvIndex Proofs.InvSched Proofs.InvCtx Proofs.InvEscrow Proofs.InvReq
-  Proofs.InvAll Proofs.StepSpecs_ctx Proofs.TraceLemmas.
+  Proofs.InvAll Proofs.StepSpecs_ctx Proofs.StepSpecs_deposit Proofs.ReachRun Proofs.TraceLemmas.
 Import ListNotations.
 Open Scope Z_scope.
 
@@ -299,7 +299,8 @@ Lemma expire_req_log cfg s r q rc :
   get r (reqs s) = Some q -> r_active q = true -> get (rid_ctx r) (ctxs s) = Some rc ->
   has (c_svc rc, r_prov q) (binds s) = true ->
   if c_super rc then log (expire_req cfg s r) = [EvExpire r] ++ log s
-  else exists k amt,
+  else exists k amt sa,
+    slash cfg s r = Ok sa /\ log sa = EvSlash r k amt :: log s /\
     log (expire_req cfg s r) = [EvExpire r; EvRefund r (c_cons rc) (r_fee q); EvSlash r k amt] ++ log s.
 Proof.
   intros Hcfg Hbdm Hidx HJ G Ha Grc Hb.
@@ -312,10 +313,11 @@ Proof.
     pose proof (escrow_covers s r q HJ G Ha) as Hcov.
     rewrite <- (slash_bal _ _ _ _ Escrow Esl) in Hcov by discriminate.
     destruct (refund_ok sa r (c_cons rc) (r_fee q) Hfee Hcov) as (x & Er). rewrite Er.
-    apply slash_shape in Esl.
-    destruct Esl as (q' & rc' & b & amt & b2 & _ & _ & _ & _ & _ & _ & _ & _ & _ & _ & _ & ->).
+    pose proof Esl as Esl0. apply slash_shape in Esl.
+    destruct Esl as (q' & rc' & b & amt & b2 & _ & _ & _ & _ & _ & _ & _ & _ & _ & _ & _ & Esa).
     apply refund_shape in Er. destruct Er as (_ & _ & ->).
-    exists (c_svc rc', r_prov q'), amt. sproj. now rewrite log_deactivate.
+    exists (c_svc rc', r_prov q'), amt, sa. split; [reflexivity|]. subst sa. split; [reflexivity|].
+    sproj. now rewrite log_deactivate.
 Qed.
 
 Lemma expire_req_LI cfg s r q rc :
@@ -345,7 +347,7 @@ Proof.
       * intros r'. now rewrite Hl.
       * repeat constructor.
       * right; right; left. split; [auto|reflexivity].
-    + destruct Hl as (k & amt & Hl).
+    + destruct Hl as (k & amt & sa & _ & _ & Hl).
       eapply (Sh_close_delta cfg s _ r q (c_cons rc)); try eassumption.
       * intros r'. now rewrite Hl.
       * repeat constructor.
@@ -1125,4 +1127,45 @@ Proof.
       split; [congruence|].
       intros a. rewrite Hfees. unfold bal at 1. rewrite Eb. sproj. fold (bal x a).
       rewrite (transfer_bal _ _ _ _ _ a Et). lia.
+Qed.
+
+(* ================================================================== *)
+(* C04, per call                                                       *)
+(* ================================================================== *)
+
+(* one call of keeper.Slash: the event, the amount (a fraction of the deposit at that
+   moment), and the three places the amount leaves *)
+Theorem slash_amount cfg s r s1 : slash cfg s r = Ok s1 ->
+  exists q rc b b',
+    let k := (c_svc rc, r_prov q) in
+    let amt := mul_trunc (b_deposit b) (p_slash cfg) in
+    get r (reqs s) = Some q /\ get (rid_ctx r) (ctxs s) = Some rc
+    /\ get k (binds s) = Some b /\ get k (binds s1) = Some b'
+    /\ log s1 = EvSlash r k amt :: log s
+    /\ 0 <= amt <= b_deposit b
+    /\ b_deposit b' = b_deposit b - amt
+    /\ bal s1 Deposit = bal s Deposit - amt
+    /\ supply s1 = supply s - amt
+    /\ (forall a, a <> Deposit -> bal s1 a = bal s a).
+Proof.
+  intros H. destruct (C04_slash_fields cfg s r s1 H) as (q & rc & b & b' & F). cbv zeta in F.
+  exists q, rc, b, b'. cbv zeta. tauto.
+Qed.
+
+(* one call of the expiry handler on a still-active request, in any state of the expiry
+   loop (LI holds at Inv states: Inv_LI, and is kept by the loop: fold_expire_LI):
+   super mode: only the expiry; otherwise slash, refund of the whole fee to the
+   context's consumer, expiry -- the slash call returned Ok *)
+Theorem expire_req_events cfg s r q rc :
+  wf_cfg cfg -> LI cfg s ->
+  get r (reqs s) = Some q -> r_active q = true -> get (rid_ctx r) (ctxs s) = Some rc ->
+  has (c_svc rc, r_prov q) (binds s) = true ->
+  if c_super rc then log (expire_req cfg s r) = EvExpire r :: log s
+  else exists k amt sa,
+    slash cfg s r = Ok sa /\ log sa = EvSlash r k amt :: log s
+    /\ log (expire_req cfg s r) = EvExpire r :: EvRefund r (c_cons rc) (r_fee q) :: EvSlash r k amt :: log s.
+Proof.
+  intros Hcfg (_ & Hbdm & Hidx & HJ & _) G Ha Grc Hb.
+  pose proof (expire_req_log cfg s r q rc Hcfg Hbdm Hidx HJ G Ha Grc Hb) as Hl.
+  destruct (c_super rc); exact Hl.
 Qed.
